@@ -281,9 +281,15 @@ GOOD_ANSI = [None, None, '', 'red', 'bold;red', 'rgb(1,2,3)', 'bg_blue', '1;31',
 _P = []
 
 
+CFG_PLAIN = gen.Cfg(esc=False, odd=0.0, max_ops=1, min_text=0, max_text=6, ansi_ctor=False)
+
+
 def _prog():
     if not _P:
-        _P.append(gen.prog(CFG))
+        # formatted (position-dependent) values, general values, and values with no formatting at all
+        _P.append(gen.weighted((5, gen.prog(CFG)), (2, gen.prog(CFG_PLAIN)),
+                               (2, gen.texts(0, 6).map(lambda t: {'cls': 'S', 'ctor': {'k': 'plain', 't': t}, 'ops': []})),
+                               (1, gen.texts(0, 6).map(lambda t: {'cls': 's', 'ctor': {'k': 'plain', 't': t}, 'ops': [{'op': 'clear'}]}))))
     return _P[0]
 
 
@@ -294,11 +300,11 @@ def strat_spec(draw):
         fill = draw(st.sampled_from([''] * 3 + FILLS))
         flag = draw(st.sampled_from(['', '', '+', '-']))
         align = draw(st.sampled_from(['<', '>', '^', '^', '>', '']))
-        width = draw(st.sampled_from(['', '0', '3', '5', '7', '9', '12', '007', '10']))
+        width = draw(st.sampled_from(['', '0', '3', '5', '7', '9', '12', '007', '10', '05', '09']))
         ansi = draw(st.sampled_from(ANSI_PARTS))
         spec = fill + flag + align + width + ('' if ansi is None else ':' + ansi)
     else:
-        spec = ''.join(draw(st.lists(st.sampled_from(list(':+-<>^ 0159x;') + ['red', 'bold']), max_size=7)))
+        spec = ''.join(draw(st.lists(st.sampled_from(list(':+-<>^ 0159x;') + ['red', 'bold', 's', '.1', 'd', '#', ',', '_', '=', '5s']), max_size=7)))
     return {'p': p, 'spec': spec}
 
 
